@@ -775,9 +775,14 @@ func (c *Connection) write(ctx context.Context, msg Message) error {
 		}
 		err = s.shuttingDown(ErrServerClosing)
 	})
-	if err == nil {
-		err = c.writer.Write(ctx, msg)
+	if err != nil {
+		// The message was refused because the connection is shutting down. The
+		// Writer was not used, so the refusal says nothing about its health: it
+		// must not mark the writer as broken (which would cancel the handlers
+		// that a graceful Close lets run to completion).
+		return err
 	}
+	err = c.writer.Write(ctx, msg)
 
 	// For cancelled or rejected requests, we don't set the writeErr (which would
 	// break the connection). They can just be returned to the caller.
